@@ -367,7 +367,7 @@ def match_end_check(tier: str) -> dict:
     sc = importlib.import_module("pest.grammar.scanner")
     rules = ms.meta_rules()
     reps = ["a", "Z", "_", "0", "7", "-", "P", "U", "S", "H", "#", "'", "\\", "x", "u", "{", "}", "f", ".", " ", "\n", "\r", "\t", "\"", "é", "r", "/", "!", "@", "$"]
-    pairs = [(lab, const, prod) for lab, const, prod in c10_lex.PAIRS]
+    pairs = [(lab, const, prod) for lab, const, prod in c10_lex.PAIRS if hasattr(sc, const)]  # a vanished constant is reported by C10.lex
     bad = []
     n = 0
     maxlen = 3 if tier == "quick" else 4
